@@ -156,6 +156,15 @@ CHECKS = {
         "property statement is evaluated on the real tables, integrate must run, and insert;delete must restore the tables.",
    note=TRUST + "set_ncomp and init_states are not in the modelled alphabet (set_ncomp is C13, init_states C14). make_trainable groups are taken from "
         "the implementation (their construction is C10). Fixed: F10/N11 (delete_channel), N10 (delete_clamps on edges)."),
+ "C13": dict(cat="proof", ref="DESIGN.md §4 C13",
+   technique="Lean 4 theorems on a table-level model of set_ncomp (length, frame, equality with direct construction, group remapping) + implementation compared with directly built modules",
+   text="Theorems over any field of characteristic 0: the new rows of the branch have the old total length; rows of other branches are "
+        "unchanged and keep their order; the result consists of pre ++ n uniform rows ++ post; set_ncomp on a directly built table equals "
+        "the table built directly with n compartments in that branch (general position); the remapped groups touch exactly the "
+        "branches they touched before. On the implementation: random hand-built cells with channels and groups and random SWC cells, "
+        "sequences of calls on different branches: length, frame, parents, group membership, tables and solver index structures equal "
+        "to the directly built module, simulations equal on all three backends, SWC radii equal to read_swc(ncomp=n), guards refuse.",
+   note=TRUST + "The pandas row surgery is hand-modelled (tied by the table comparison with direct construction). Fixed: F9 (groups), N14 (guards)."),
 }
 
 def main():
